@@ -340,6 +340,24 @@ fn answer_like(q: &WQ, reply: &WMsg, rows: &[WRR], cname_result: Option<N>) -> R
 
 /// Records of a reply that may be used for SOME legal reading (used by the
 /// end-to-end part, where the match count is not observable).
+/// The answer part of `union_allowed`: alias links and records of the asked
+/// type at the end of some alias path.
+pub fn answer_allowed(q: &WQ, reply: &WMsg) -> Vec<WRR> {
+    let mut ok: Vec<WRR> = Vec::new();
+    for (names, edges) in alias_paths(&q.name, &reply.answers) {
+        let terminal = names.last().unwrap();
+        for i in edges {
+            ok.push(reply.answers[i].clone());
+        }
+        for r in &reply.answers {
+            if r.name.lower() == *terminal && type_matches(r.rtype, q.qtype) {
+                ok.push(r.clone());
+            }
+        }
+    }
+    ok
+}
+
 pub fn union_allowed(q: &WQ, reply: &WMsg) -> Vec<WRR> {
     let mut ok: Vec<WRR> = Vec::new();
     for (names, edges) in alias_paths(&q.name, &reply.answers) {
@@ -469,7 +487,7 @@ impl Prop for EndToEnd {
         500
     }
     fn cases(&self, tier: Tier) -> u64 {
-        tier.pick(12_000, 400_000)
+        tier.pick(60_000, 2_000_000)
     }
     fn generate(&self, g: &mut Gen) -> E2eCase {
         let question = gen_question(g);
@@ -508,7 +526,7 @@ impl Prop for EndToEnd {
         zones.insert(hints.to_impl());
         let cache = SharedCache::new();
         let script = c.script.clone();
-        let sent: std::sync::Arc<std::sync::Mutex<Vec<(WQ, WMsg, bool)>>> = Default::default();
+        let sent: std::sync::Arc<std::sync::Mutex<Vec<(WQ, WMsg, bool, std::net::IpAddr)>>> = Default::default();
         let sent2 = sent.clone();
         let mock = Mock::new(Box::new(move |ctx: &Ctx| {
             let Some(req) = ctx.request else { return Action::Silence };
@@ -521,7 +539,7 @@ impl Prop for EndToEnd {
             m.rd = req.rd;
             m.aa = false;
             apply_header_fault(&mut m, s);
-            sent2.lock().unwrap().push((q.clone(), m.clone(), s.header_fault != 0));
+            sent2.lock().unwrap().push((q.clone(), m.clone(), s.header_fault != 0, ctx.dest.ip()));
             Action::Reply { bytes: rwire::encode_plain(&m), delay_ms: 5, label: format!("script#{udp_index} fault={}", s.header_fault) }
         }));
         let q = super::c07::to_question(&c.question);
@@ -529,6 +547,7 @@ impl Prop for EndToEnd {
         clock::set_virtual_nanos(None);
         let sent = sent.lock().unwrap().clone();
         let faulty = sent.iter().filter(|s| s.2).count();
+        let all_sent = sent.clone();
         let mut out = Outcome::pass(faulty >= 1 && sent.len() > faulty)
             .count("replies-sent", sent.len() as u64)
             .count("replies-with-header-fault", faulty as u64);
@@ -559,11 +578,20 @@ impl Prop for EndToEnd {
             }
             // which reply carried it? (owner, type, data, tag)
             let same = |x: &WRR| x.name.lower() == w.name.lower() && x.rtype == w.rtype && x.data == w.data && x.ttl == w.ttl;
-            let src = sent.iter().find(|(_, m, _)| m.answers.iter().chain(&m.authority).chain(&m.additional).any(same));
+            let src = sent.iter().enumerate().find(|(_, (_, m, _, _))| m.answers.iter().chain(&m.authority).chain(&m.additional).any(same));
             match src {
                 None => return out.fail("record-from-nowhere", format!("{w:?} was in no reply")),
-                Some((_, _, true)) => return out.fail("used-record-of-discarded-reply", format!("{w:?} came from a reply with a header fault")),
-                Some((sq, m, false)) => {
+                Some((_, (_, _, true, _))) => return out.fail("used-record-of-discarded-reply", format!("{w:?} came from a reply with a header fault")),
+                Some((idx, (sq, m, false, dest))) => {
+                    // an NS record must be deeper than the delegation in use when its
+                    // reply arrived: the server asked is identified by its (uniquely
+                    // tagged) glue address, hence the NS records naming that host
+                    if w.rtype == T_NS && !answer_allowed(sq, m).iter().any(same) {
+                        let in_use = delegation_depth_in_use(&all_sent[..idx], *dest, &sq.name.lower());
+                        if w.name.depth() <= in_use {
+                            return out.fail("ns-not-deeper-than-delegation-in-use", format!("{w:?} accepted from a server reached through a delegation of depth {in_use}; question {} {}", sq.name, sq.qtype));
+                        }
+                    }
                     if !union_allowed(sq, m).iter().any(same) {
                         let offpath = w.rtype == T_CNAME;
                         let sig = if offpath { "offpath-cname" } else if w.rtype == T_NS { "ns-foreign-owner" } else { "irrelevant-record-used" };
@@ -574,6 +602,45 @@ impl Prop for EndToEnd {
         }
         out
     }
+}
+
+/// Depth (number of labels, root = 0) of the delegation through which the
+/// server at `dest` was reached, judged from the replies delivered before:
+/// the shallowest owner, enclosing the question name, of an NS record naming
+/// a host whose glue address is `dest` (0 if unknown, i.e. the root server).
+fn delegation_depth_in_use(earlier: &[(WQ, WMsg, bool, std::net::IpAddr)], dest: std::net::IpAddr, qname: &N) -> usize {
+    let mut hosts: Vec<N> = Vec::new();
+    for (_, m, faulty, _) in earlier {
+        if *faulty {
+            continue;
+        }
+        for r in m.answers.iter().chain(&m.additional) {
+            let is_dest = match (&r.data, dest) {
+                (WData::A(a), std::net::IpAddr::V4(d)) => *a == d.octets(),
+                (WData::Aaaa(a), std::net::IpAddr::V6(d)) => *a == d.octets(),
+                _ => false,
+            };
+            if is_dest {
+                hosts.push(r.name.lower());
+            }
+        }
+    }
+    let mut best: Option<usize> = None;
+    for (_, m, faulty, _) in earlier {
+        if *faulty {
+            continue;
+        }
+        for r in m.answers.iter().chain(&m.authority) {
+            if r.rtype == T_NS && qname.is_at_or_below(&r.name.lower()) {
+                if let WData::Name(t) = &r.data {
+                    if hosts.contains(&t.lower()) {
+                        best = Some(best.map_or(r.name.depth(), |b| b.min(r.name.depth())));
+                    }
+                }
+            }
+        }
+    }
+    best.unwrap_or(0)
 }
 
 pub fn def() -> PropertyDef {
